@@ -20,10 +20,31 @@ _BOOT = (
 )
 
 
+def _noaslr_prefix() -> list:
+    """Address-space layout is a source of nondeterminism (id()-ordered containers): templates run
+    with ASLR disabled so that object addresses are a pure function of the execution."""
+    global _NOASLR
+    if _NOASLR is None:
+        _NOASLR = []
+        exe = shutil.which("setarch")
+        if exe:
+            cand = [exe, os.uname().machine, "-R"]
+            try:
+                if subprocess.run(cand + ["/bin/true"], capture_output=True, timeout=20).returncode == 0:
+                    _NOASLR = cand
+            except (OSError, subprocess.SubprocessError):
+                pass
+    return list(_NOASLR)
+
+
+_NOASLR = None
+
+
 class Worker:
-    def __init__(self, wid: int, exe: str, hashseed: int, repo: str, logdir: str):
+    def __init__(self, wid: int, exe: str, hashseed: int, repo: str, logdir: str, pad: int = 0):
         self.wid = wid
         self.exe = exe
+        self.pad = int(pad)
         self.hashseed = int(hashseed)
         self.repo = repo
         self.logpath = os.path.join(logdir, "worker-%d.log" % wid)
@@ -34,9 +55,10 @@ class Worker:
             "PYTHONHASHSEED": str(self.hashseed),
             "PYTHONDONTWRITEBYTECODE": "1",
             "LC_ALL": "C.UTF-8",
+            "VERIF_HEAP_PAD": str(self.pad),
         }
         self.proc = subprocess.Popen(
-            [exe, "-P", "-c", _BOOT, "--repo", repo, "--id", str(wid)],
+            _noaslr_prefix() + [exe, "-P", "-c", _BOOT, "--repo", repo, "--id", str(wid)],
             stdin=subprocess.PIPE, stdout=subprocess.PIPE, stderr=self.log, env=env, cwd=os.path.join(logdir, "cwd"),
             text=True, encoding="utf-8", bufsize=1,
         )
@@ -121,10 +143,12 @@ class Fleet:
         self.specs = specs
         wid = 0
         try:
-            for exe, hs in specs:
+            for spec in specs:
+                exe, hs = spec[0], spec[1]
+                pad = spec[2] if len(spec) > 2 else 0
                 grp = []
                 for _ in range(replicas):
-                    grp.append(Worker(wid, exe, hs, self.repo, self.logdir))
+                    grp.append(Worker(wid, exe, hs, self.repo, self.logdir, pad))
                     wid += 1
                 self.groups.append(grp)
             for grp in self.groups:
@@ -209,9 +233,9 @@ class Fleet:
         self.close()
 
 
-def fresh_worker(repo: str, exe: str, hashseed: int) -> Fleet:
+def fresh_worker(repo: str, exe: str, hashseed: int, pad: int = 0) -> Fleet:
     """A brand-new interpreter for replay verification."""
-    return Fleet(repo, [(exe, hashseed)], replicas=1, jobs=1)
+    return Fleet(repo, [(exe, hashseed, pad)], replicas=1, jobs=1)
 
 
 def default_jobs() -> int:
